@@ -33,6 +33,7 @@ type scenario struct {
 	outbox   []entry
 	pushed   []entry
 	channels []int64
+	script   []string // directly constructed prefix of steps (before the drawn ones)
 }
 
 func (sc *scenario) class(c string) { sc.classes[c] = true }
@@ -101,11 +102,50 @@ func genWorld(t *rapid.T, opts scenarioOpts) *scenario {
 		w.tooLongGap = rapid.SampledFrom([]int{0, 0, 3, 5}).Draw(t, "tooLongGap")
 		w.chTooLong = rapid.SampledFrom([]int{0, 0, 3}).Draw(t, "chTooLong")
 	}
+	scripted := false
+	if opts.tooLong && rapid.IntRange(0, 9).Draw(t, "scriptedTooLongTwice") == 0 {
+		// A history that needs about seven specific steps, built directly: a channel
+		// whose log moves in steps of 120 positions (mass deletions); the server
+		// announces a gap too long to fetch (pushed updateChannelTooLong, 120 > the
+		// client's limit of 100), an idle difference then recovers it normally (the
+		// server's own limit is 150), and later the channel falls 360 behind so that
+		// the difference answers channelDifferenceTooLong. Drawn steps follow.
+		scripted = true
+		sc.class("scripted:channel-too-long-twice")
+		const id = int64(100)
+		sc.channels = []int64{id}
+		for s := range w.logs {
+			if strings.HasPrefix(s, "ch:") {
+				for _, e := range w.logs[s] {
+					delete(w.byTag, e.tag)
+				}
+				delete(w.logs, s)
+				delete(w.base, s)
+				delete(w.head, s)
+			}
+		}
+		seq := chSeq(id)
+		w.base[seq], w.head[seq] = 20, 20
+		p := 20
+		for _, c := range []int{120, 1, 120, 120, 120, 1} {
+			tag++
+			kind := "cdel"
+			if c == 1 {
+				kind = "cmsg"
+			}
+			e := entry{seq: seq, start: p, end: p + c, tag: tag, kind: kind, ch: id}
+			p += c
+			w.logs[seq] = append(w.logs[seq], e)
+			w.byTag[tag] = e
+		}
+		w.chTooLong = 150
+		sc.script = []string{"pub:" + seq, "chTooLongPts:100", "sleep16m", "pub:" + seq, "pub:" + seq, "pub:" + seq, "pub:" + seq, "sleep16m"}
+	}
 	w.store = &memStorage{w: w, has: true, channels: map[int64]int{}}
 	w.store.state = updates.State{Pts: w.base["pts"], Qts: w.base["qts"], Date: w.date, Seq: 0}
 	w.unknown, w.learnedStart, w.learnedAt = map[string]bool{}, map[string]int{}, map[string]int{}
 	for _, id := range sc.channels {
-		if opts.unknownChannels && rapid.Bool().Draw(t, "unknownChannel") {
+		if opts.unknownChannels && !scripted && rapid.Bool().Draw(t, "unknownChannel") {
 			// a channel the client has never seen: nothing stored; it learns the channel
 			// from the first update it is pushed and starts right before that update
 			w.unknown[chSeq(id)] = true
@@ -125,8 +165,8 @@ func genWorld(t *rapid.T, opts scenarioOpts) *scenario {
 func (sc *scenario) start(t fataler, store *memStorage) {
 	w := sc.w
 	sc.mgr = updates.New(updates.Config{
-		Handler:      w.handler(),
-		Storage:      store,
+		Handler:          w.handler(),
+		Storage:          store,
 		AccessHasher:     hasher{fail: w.hasherDown},
 		UserAccessHasher: hasher{fail: w.hasherDown},
 		OnTooLong: func() {
@@ -236,6 +276,30 @@ func (sc *scenario) container(t *rapid.T, ents []entry, noSeq ...bool) tg.Update
 func (sc *scenario) runSteps(t *rapid.T, opts scenarioOpts) {
 	n := rapid.IntRange(0, opts.maxSteps).Draw(t, "nSteps")
 	note := func(f string, a ...any) { sc.steps = append(sc.steps, fmt.Sprintf(f, a...)) }
+	for _, op := range sc.script {
+		switch {
+		case strings.HasPrefix(op, "pub:"):
+			if e, ok := sc.publish(strings.TrimPrefix(op, "pub:")); ok {
+				note("pub(%v) [not pushed]", e)
+			}
+		case strings.HasPrefix(op, "chTooLongPts:"):
+			var id int64
+			fmt.Sscanf(strings.TrimPrefix(op, "chTooLongPts:"), "%d", &id)
+			sc.w.mu.Lock()
+			head := sc.w.head[chSeq(id)]
+			sc.w.mu.Unlock()
+			u := &tg.UpdateChannelTooLong{ChannelID: id}
+			u.SetPts(head)
+			note("channelTooLong(%d, pts %d)", id, head)
+			sc.push(t, &tg.Updates{Updates: []tg.UpdateClass{u}})
+			synctest.Wait()
+			sc.class("channelTooLong")
+		case op == "sleep16m":
+			note("sleep(16m)")
+			time.Sleep(16 * time.Minute)
+			synctest.Wait()
+		}
+	}
 	for i := 0; i < n; i++ {
 		switch rapid.SampledFrom([]string{"publish", "publish", "publish", "push", "push", "push", "lose", "sleep", "wait", "tooLong", "chTooLong", "ptsChanged", "qts0"}).Draw(t, "action") {
 		case "publish":
@@ -394,7 +458,7 @@ func (sc *scenario) key() string { return strings.Join(sc.steps, " ") }
 
 func (sc *scenario) classList() []string {
 	var out []string
-	for _, c := range []string{"dup", "reorder", "loss", "push-no-wait", "gap-timer-elapsed", "updatesTooLong", "channelTooLong", "ptsChanged", "qts0", "unpushed-tail", "sliced", "other-in-diff", "toolong-diff", "seq", "seq-gap"} {
+	for _, c := range []string{"dup", "reorder", "loss", "push-no-wait", "gap-timer-elapsed", "updatesTooLong", "channelTooLong", "ptsChanged", "qts0", "unpushed-tail", "sliced", "other-in-diff", "toolong-diff", "seq", "seq-gap", "unknown-channel", "unknown-channel-learned", "min-entities", "access-hash-store-down", "scripted:channel-too-long-twice"} {
 		if sc.classes[c] {
 			out = append(out, c)
 		}
